@@ -123,9 +123,11 @@ func openStorage(dir string, opt Options) (*storage, error) {
 	if s.log, err = log.Open(filepath.Join(dir, "log"), 0700, logOpt); err != nil {
 		return nil, err
 	}
-	if s.log.LastIndex() < s.snaps.index {
+	if s.log.LastIndex() < s.snaps.index || s.log.PrevIndex() > s.snaps.index {
 		// crashed after a snapshot was installed and before (or while) the log
-		// was reset to it: what is left of the log is a stale prefix
+		// was reset to it: what is left of the log is a stale prefix, or, when
+		// Reset had already removed the oldest segments, a tail that no longer
+		// connects to the snapshot
 		if err = s.log.Reset(s.snaps.index); err != nil {
 			return nil, err
 		}
